@@ -112,7 +112,7 @@ def sort_of(t):
     elif isinstance(t, OptT):
         d = z3.Datatype(t.name()); d.declare('none_' + t.name()); d.declare('some_' + t.name(), ('val_' + t.name(), sort_of(t.base)))
         s = d.create()
-    elif isinstance(t, OpaqueT): s = z3.DeclareSort(t.n)
+    elif isinstance(t, OpaqueT): s = z3.DeclareSort('Py' + t.n)
     elif isinstance(t, ObjT): raise Unsupported('object of class %s stored in a container' % t.cls)
     else: raise Unsupported('no sort for type %r' % (t,))
     _sorts[t] = s
